@@ -113,13 +113,22 @@ def main():
         fut = v
         import concurrent.futures as cf
 
-        try:
-            r = fut.result(timeout=o.get("result_timeout", 6))
-            out["result"] = "ok" if (r == 2 or (isinstance(r, list) and all(x == 2 for x in r)) or (o.get("plot") and r is None)) else "wrong:%r" % (r,)
-        except cf.TimeoutError:
-            out["result"] = "pending"
-        except BaseException as e:  # noqa
-            out["result"] = type(e).__name__
+        # the same call a second time, submitted while the first may still be running (both must run)
+        st2, v2 = timed(lambda: exe.submit(fn, 1, resource_dict=pc) if pc is not None else exe.submit(fn, 1), 10)
+        futs = [fut] + ([v2] if st2 == "ok" else [])
+        if st2 != "ok":
+            out["submit2"] = type(v2).__name__ if st2 == "exc" else "TIMEOUT"
+        res = []
+        for fu in futs:
+            try:
+                r = fu.result(timeout=o.get("result_timeout", 6))
+                res.append("ok" if (r == 2 or (isinstance(r, list) and all(x == 2 for x in r)) or (o.get("plot") and r is None)) else "wrong:%r" % (r,))
+            except cf.TimeoutError:
+                res.append("pending")
+            except BaseException as e:  # noqa
+                res.append(type(e).__name__)
+        out["result"] = "ok" if all(x == "ok" for x in res) and st2 == "ok" else next((x for x in res if x != "ok"), "second submit refused")
+        out["results"] = res
     st, v = timed(lambda: exe.shutdown(wait=True), o.get("shutdown_timeout", 6))
     out["shutdown"] = "returned" if st == "ok" else (type(v).__name__ if st == "exc" else "hang")
     print(json.dumps(out), flush=True)
